@@ -387,3 +387,37 @@ def r15d(ctx):
             else:
                 ctx.ok(cid, c.module.loc(reads[0]), f"{m.kind}: evaluated at use")
     ctx.floor("configuration reads in expression classes", n, 3)
+
+
+def _function_cache_decorators(fn):
+    return [ast.unparse(d) for d in fn.decorator_list if ast.unparse(d).split("(")[0] in ("functools.lru_cache", "lru_cache", "functools.cache", "cache")]
+
+
+@rule(
+    "R15e",
+    ["C15", "C16"],
+    """NO FUNCTION-LEVEL CACHE ON EXPRESSION METHODS: functools.lru_cache / functools.cache on a method (or under a property) of
+    an expression class is a process-global cache keyed by `self`: it pins the instance, so the weak singleton registry
+    never forgets it and a later, equal-named expression gets the stale object (and its stale plan) back - depending on
+    how many other calls evicted it. Per-instance caching must use cached_property.""",
+)
+def r15e(ctx):
+    model = ctx.model
+    n = 0
+    for c in model.expr_classes():
+        for m in model.functions_of(c):
+            n += 1
+            bad = _function_cache_decorators(m.node)
+            cid = f"{qual(c, m.node)}:function-cache"
+            if bad:
+                ctx.bad(cid, c.module.loc(m.node), f"{qual(c, m.node)} is decorated with {bad}: a process-global cache that holds the expression instance alive and answers for later, equal expressions from a stale object")
+    import os
+
+    ex = os.path.join(os.path.dirname(os.path.dirname(__file__)), "examples", "r15e_positive.py")
+    tree = ast.parse(open(ex).read())
+    flagged = {f.name for k in tree.body if isinstance(k, ast.ClassDef) for f in k.body if isinstance(f, ast.FunctionDef) and _function_cache_decorators(f)}
+    if flagged != {"_plan"}:
+        raise AnalysisError(f"R15e self-check failed: positive example flagged {sorted(flagged)}, expected ['_plan']")
+    ctx.ok("examples/r15e_positive.py", "sa/examples/r15e_positive.py", "positive example flagged, cached_property twin is not")
+    ctx.ok("expression methods without function-level caches", "", f"{n} methods scanned")
+    ctx.floor("expression methods", n, 900)
